@@ -1340,7 +1340,7 @@ impl MapRun {
                 None
             }
             FaultOp::IterLoop(kind) => {
-                let mut body = |tag: u32, id: u64, p: u64| {
+                let body = |tag: u32, id: u64, p: u64| {
                     seen.borrow_mut().push((tag, id, p));
                     if n.get() == at {
                         std::panic::panic_any(Injected(777));
